@@ -66,8 +66,9 @@ impl Engine for VmEngine {
             }
             "C29" => {
                 let mut storage = world.storage();
+                let mut held = None;
                 for (i, spec) in sc.txs.iter().enumerate() {
-                    let (stop, st) = robust::check_tx(&world, sc, i, spec, storage, ctx);
+                    let (stop, st) = robust::check_tx(&world, sc, i, spec, storage, &mut held, ctx);
                     storage = st;
                     if stop {
                         return;
@@ -133,6 +134,11 @@ pub mod shrink {
         if sc.plan.reuse_vm {
             let mut a = sc.clone();
             a.plan.reuse_vm = false;
+            out.push(a);
+        }
+        if !sc.plan.plain.is_empty() {
+            let mut a = sc.clone();
+            a.plan.plain.clear();
             out.push(a);
         }
         if sc.gas != GasSched::Default {
